@@ -6,7 +6,8 @@ COMMON = dict(
     trusted_base=SEM_TB,
     modelled="resolve_special_instrumentation + emission (flat mirror), the tree-level lowering, the interpreter WasmP.v",
     assumptions=["probe code is straight-line and stack-neutral (i32.const id; call $log)", "programs terminate within the fuel (fuel exhaustion = outside the domain, counted)",
-                 "no Wasm engine exists in the sandbox: the execution oracle is the Gallina interpreter evaluated by vm_compute"],
+                 "no Wasm engine exists in the sandbox: the execution oracle is the Gallina interpreter evaluated by vm_compute",
+                 "memory is modelled as a window of eight i32 cells at constant aligned addresses (an access outside the window is OUnsupported = outside the domain, never generated); the helper function is an operator with fixed semantics"],
 )
 SIM_NOTE = ("Trusted: Coq kernel + vm_compute; WasmP.v as the meaning of control flow and of the probe modes; the harness. The simulation theorem is about the "
             "tree-level lowering; Proofs/Flatten.v proves that the flat mirror of resolve_special_instrumentation + emission produces exactly the flattening of that tree (resolve_flatten, all bodies in the fragment without the D16-D18 shapes: semantic-after on branch instructions), so the "
@@ -16,7 +17,7 @@ PROPS = {
         proof_targets=["Props/C16.vo"],
         theorems=[("C16", "C16_lowered_body_simulates_spec"), ("C16", "C16_exec_mono"), ("C16", "C16_emitted_code_simulates_the_probe_semantics"), ("C16", "C16_tree_tie_follows_from_the_correspondence")],
         quick=dict(n=600), thorough=dict(n=12000),
-        rule="typed, terminating, validator-accepted programs (nested blocks/loops/ifs, br/br_if/br_table to every enclosing non-loop label, return, unreachable, globals, locals, results) "
+        rule="typed, terminating, validator-accepted programs (nested blocks/loops/ifs, br/br_if/br_table to every enclosing non-loop label, return, unreachable, a mutable global, locals, results, i32.load / i32.store on eight word cells of memory 0, calls of the imported $log and of a local helper function that accumulates into the global) "
              "with 1-6 neutral probes over before/after/block-entry/block-exit/semantic-after and function entry/exit, 4 argument vectors each; non-trivial = every case (plan never empty)",
         level_text="Partial proof: simulation theorem (all bodies, plans, configurations, fuel) that the plain interpreter on the lowered tree reproduces the specification interpreter, for before/after/"
                    "block-entry/block-exit/semantic-after-on-constructs; semantic-after on branches and function entry/exit are outside the theorem and covered by in-Coq differential execution of the original "
